@@ -321,7 +321,8 @@ def parse_tlc(out, rc):
                 r.ok = True
             else:
                 m = re.search(r"Error: (.*)", out)
-                r.error = "TLC error rc=%d: %s" % (rc, m.group(1) if m else out[-800:])
+                m2 = re.search(r"The exception was a [^\n]*\n: ([^\n]*(?:\n[^\n]*){0,12})", out)
+                r.error = "TLC error rc=%d: %s %s" % (rc, m.group(1) if m else out[-800:], m2.group(1) if m2 else "")
     # counterexample states
     r.cex = re.findall(r"^State \d+: .*?(?=^State \d+:|\Z)", out, flags=re.S | re.M)
     r.coverage_zero = re.findall(r"^\s*(<\S+ line .*?>): 0:0\s*$", out, flags=re.M)
